@@ -1230,3 +1230,18 @@ Proof.
     eapply no_lost_wakeup_inv; eauto. }
   rewrite PN in *. rewrite app_nil_r in *. rewrite Ok, Nd. reflexivity.
 Qed.
+
+(* the cleanup-count oracle accepts every model state in which no thread is inside the block *)
+Definition no_thread_in_cleanup (s : st) : bool :=
+  forallb (fun t => match a_sub t with SClean1 _ | SClean2 _ => false | _ => true end) (athreads s).
+
+Lemma cleanup_oracle_sound s :
+  Inv s -> no_thread_in_cleanup s = true -> check_cleanup (cleanups (gh s)) (status s) = true.
+Proof.
+  intros I H. pose proof (iC _ I) as C.
+  assert (Z : sumf pcl (athreads s) = 0).
+  { apply sumf_zero. intros t Ht. unfold no_thread_in_cleanup in H. rewrite forallb_forall in H.
+    specialize (H _ Ht). unfold pcl. destruct (a_sub t); try discriminate; reflexivity. }
+  rewrite Z in C. unfold check_cleanup.
+  destruct (rank (status s) =? 6) eqn:E6; destruct (5 <=? rank (status s)) eqn:E5; unfold b2n in C; lia.
+Qed.
